@@ -60,7 +60,7 @@ EntityAt(t, i) ==
             THEN LET v == NumVal(t, i + 2, e, 10, 0) IN [k |-> "ok", v |-> EncodeRune(IF v = 0 THEN 65533 ELSE v), n |-> e + 1]
             ELSE NoEnt
   ELSE LET e == RunEnd(t, i + 1, 3) IN
-       IF e > i + 1 /\ e <= Len(t) /\ t[e] = SEMI
+       IF e > i + 1 /\ IsAlpha(t[i + 1]) /\ e <= Len(t) /\ t[e] = SEMI      \* (every entity name starts with a letter)
        THEN LET nm == Sub(t, i + 1, e - 1) hits == {x \in Named : x[1] = nm} IN
             IF hits = {} THEN [k |-> "unknown", v |-> <<>>, n |-> e + 1]
             ELSE [k |-> "ok", v |-> (CHOOSE x \in hits : TRUE)[2], n |-> e + 1]
@@ -151,7 +151,7 @@ LeaksOnlyAtCR(t) == \A i \in 2..Len(t) : LineStartC(t, i, FALSE) /\ ~LineInBlock
                     splits lines at LF only - and counts the end of the slice as content, because
                     template text follows it: sufficient, not necessary)
           marker    after <= 3 columns of indentation no such line starts with a raw > - + = or
-                    with digits followed by a raw . or )   (ATX heading, block quote, bullet/ordered
+                    with digits followed by a raw . or )   (block quote, bullet/ordered
                     list, thematic break, setext underline; a table delimiter row needs a raw - or |)
         CFail names the first failing clause, "" if none. ---- *)
 RECURSIVE RolesFrom(_, _)
